@@ -586,6 +586,8 @@ class Summaries(object):
         self._may = {}
 
     def _callees(self, ev):
+        if ev.get("inlined"):
+            return []
         if ev["k"] == "call":
             return [g for g in self.prog.resolve_call(ev) if g.blocks]
         if ev["k"] == "construct" and ev.get("cid") in self.prog.funcs:
@@ -1099,7 +1101,7 @@ def inlined_step(prog, step, want, depth=3, on_return=None):
     active = []
 
     def step2(st, ev):
-        if ev["k"] == "call" and level[0] < depth:
+        if ev["k"] == "call" and level[0] < depth and not ev.get("inlined"):     # (calls already expanded by Program.flat are in the CFG)
             gs = [g for g in prog.resolve_call(ev) if g.blocks and g.id not in active and want(g)]
             if gs:
                 outs = []
